@@ -12,7 +12,11 @@ Lemma src_convert_channel_eq from_max to_max value :
   src_convert_channel from_max to_max value = Colormodel.convert_channel from_max to_max value.
 Proof.
   intros Hf Ht Hv. unfold src_convert_channel, Colormodel.convert_channel.
-  rewrite !cast_u8_u32_id by lia. reflexivity.
+  rewrite !cast_u8_u32_id by lia.
+  (* `<<` on u32 drops no bit here: to_max <= 255 shifted by 24 is below 2^32 *)
+  rewrite (Casts.shl_u32_id to_max 24) by (rewrite Z.shiftl_mul_pow2 by lia; unfold min_u32, max_u32; change (2 ^ 24) with 16777216; lia).
+  rewrite (Casts.shl_u32_id 1 (24 - 1)) by (cbn; unfold min_u32, max_u32; lia).
+  reflexivity.
 Qed.
 
 (* luma: the colour is the storage word of an Rgb888 (the model's representation), r()/g()/b() are the model's
